@@ -624,6 +624,29 @@ func Forall(bound []*Term, body *Term, pats ...[]*Term) *Term {
 	if body.IsTrue() {
 		return TTrue
 	}
+	// a multi-pattern must be made of applications and mention every bound variable
+	var good [][]*Term
+	for _, p := range pats {
+		covered := map[string]bool{}
+		ok := len(p) > 0
+		for _, q := range p {
+			if len(q.Args) == 0 || len(q.fbv) == 0 {
+				ok = false
+			}
+			for _, n := range q.fbv {
+				covered[n] = true
+			}
+		}
+		for _, b := range bound {
+			if !covered[b.VarName()] {
+				ok = false
+			}
+		}
+		if ok {
+			good = append(good, p)
+		}
+	}
+	pats = good
 	return intern(&Term{Op: "forall", Sort: SBool, Args: []*Term{body}, Bound: bound, Pats: pats})
 }
 
